@@ -274,9 +274,25 @@ def generic_programs():
         ("generic:nested:plain-first", pi + " " + hw, ["8", "5"]),
         ("generic:rebinding-and-nested", tg + " " + hw + " " + pl + " " + pi, ["eight", "7", "nine", "5", "plain", "again", "8"]),
     ]
+    # hunt C03/d9: an array-typed FIELD whose size is a name (a static final of the same class, of another class, in a generic class):
+    # the field has that many default elements, for every element type (qubit elements are real qubits)
+    fsz = []
+    for where, decl, sz in (("own-static", "public static final int N = %d;", "N"), ("other-class", "", "Kz.N"), ("literal", "", "%d")):
+        for nval in (1, 2, 3):
+            kz = "static class Kz { public static final int N = %d; }\n" % nval
+            szs = sz % nval if "%" in sz else sz
+            own = decl % nval if "%" in decl else decl
+            cls = kz + "class Rz { %s public int[%s] xs; public bit[%s] bs; public qubit[%s] qs; public constructor() -> Rz = default; }\n" % (own, szs, szs, szs)
+            gcl = kz + "class Gz<T> { %s public T[%s] items; public constructor() -> Gz<T> = default; }\n" % (own, szs)
+            zeros = "{" + ", ".join(["0"] * nval) + "}"
+            fsz.append(("fieldsize:%s:%d:classical" % (where, nval), cls + "function main() -> void { Rz r = new Rz(); echo(r.xs); echo(r.bs); }\n", ("ok", [zeros, zeros])))
+            qprobe = "x(r.qs[%d]); echo(measure r.qs[%d]);" % (nval - 1, nval - 1) + (" echo(measure r.qs[0]);" if nval > 1 else "")
+            fsz.append(("fieldsize:%s:%d:qubits" % (where, nval), cls + "function main() -> void { Rz r = new Rz(); %s }\n" % qprobe, ("ok", ["1", "0"] if nval > 1 else ["1"])))
+            fsz.append(("fieldsize:%s:%d:generic" % (where, nval), gcl + "function main() -> void { Gz<int> g = new Gz<int>(); echo(g.items); }\n", ("ok", [zeros])))
     progs = [(n, box + "function main() -> void { %s }\n" % b, ("ok", e)) for n, b, e in cases]
     progs += [(n, nest + "function main() -> void { %s }\n" % b, ("ok", e)) for n, b, e in cases3]
     progs += [(n, stat + "function main() -> void { %s }\n" % b, ("ok", e)) for n, b, e in cases2]
+    progs += fsz
     return progs
 
 
